@@ -124,7 +124,9 @@ CLAIMS = {
             "FinalizerSubscription, RefCountSubscription, BehaviorSubject, subjects; unsubscribe makes them dead; a part "
             "appended to an unsubscribed composite is unsubscribed at once — also while the composite is still tearing its parts "
             "down (re-entry discipline); Kani: SubscriberThreads delivers under the cell lock (so is_closed()==true on another "
-            "handle cannot be followed by a delivery in flight).", "§4 C17",
+            "handle cannot be followed by a delivery in flight); (bounded:) Remote::poll polls the task body while the handle's lock is held "
+            "(an unsubscribe that lands during a poll waits and then tears the stored result down); structural: MultiSubscription::append "
+            "is one critical section (@@atomic).", "§4 C17",
             "'never again false' across clones is the closed-slot argument; debounce's handler cell reports closed while empty (DESIGN §6)."),
     "C18": ("Every unit that exists in a local and a thread-safe form is extracted in BOTH forms (macro instantiations found at "
             "the real invocation sites) and proved against ONE functional contract; Kani: the thread-safe higher-order "
